@@ -23,7 +23,7 @@ RULE = ("cases = every template AST within the node/depth bound built by the gen
         "RenderTemplateToDocument) and the paragraph texts joined by newline are compared with the concretised expectation; "
         "a deviating case is reported under the minimal set of construct classes (Tmpl!Classes) that deviates in the run")
 
-LAWS = ["Inv_Verbatim", "Inv_Unused", "Inv_AbsentFalse", "Inv_Dual", "Inv_Blocks", "Inv_LoopHom", "Inv_Norm"]
+LAWS = ["Inv_Verbatim", "Inv_Unused", "Inv_AbsentFalse", "Inv_Dual", "Inv_Blocks", "Inv_LoopHom", "Inv_Norm", "Inv_Data"]
 
 
 def S(*xs):
@@ -75,7 +75,7 @@ def tiers(ctx):
     if not q:
         # every loop shape up to two levels with every value class and with unused data
         layers["loops"] = consts(FULL, loops, MaxNodes=3, MaxDepth=3, Vars=S("v1"), Flds=S("f1"), NoiseOpts=NOISE)
-    sim = dict(num=30, depth=40, limit=4000) if q else dict(num=600, depth=60, limit=60000)
+    sim = dict(num=1500, depth=80, limit=5000) if q else dict(num=8000, depth=90, limit=40000)
     simc = consts(FULL, MaxNodes=7 if q else 9, MinNodes=4 if q else 5, MaxDepth=3, NoiseOpts=NOISE)
     return mc, layers, simc, sim
 
